@@ -2265,6 +2265,28 @@ class Controller:
         '''
         See Bluetooth spec Vol 4, Part E - 7.8.13 LE Create Connection Cancel Command
         '''
+        if not (pending_le_connection := self.pending_le_connection):
+            return hci.HCI_StatusReturnParameters(
+                hci.HCI_ErrorCode.COMMAND_DISALLOWED_ERROR
+            )
+
+        # The pending connection is concluded by a connection complete event with
+        # the "unknown connection identifier" status, sent after the command complete
+        self.pending_le_connection = None
+        asyncio.get_running_loop().call_soon(
+            self.send_hci_packet,
+            hci.HCI_LE_Connection_Complete_Event(
+                status=hci.HCI_ErrorCode.UNKNOWN_CONNECTION_IDENTIFIER_ERROR,
+                connection_handle=0,
+                role=hci.Role.CENTRAL,
+                peer_address_type=pending_le_connection.peer_address.address_type,
+                peer_address=pending_le_connection.peer_address,
+                connection_interval=0,
+                peripheral_latency=0,
+                supervision_timeout=0,
+                central_clock_accuracy=0,
+            ),
+        )
         return hci.HCI_StatusReturnParameters(hci.HCI_ErrorCode.SUCCESS)
 
     def on_hci_le_extended_create_connection_command(
